@@ -65,6 +65,19 @@ CLAIMS = {
          '(every detected root is backed by a file of the disk oracle), C18_guess_preserves, C18_find_module_*; correspondence on materialised layouts; oracle = the generating layout. A genuine defect found by the oracle (nested module never discovered) was fixed in /repo (02e5c66). '
          'Partial: ambiguous layouts (one relative path under two roots) are outside the statement; the disk is an oracle (no symlinks, no "..")', 'section 6 C18',
          'Coq structural theorems for every disk + layout-generating differential oracle'),
+ 'C06': ('proof', 'C06_aggregate_oracle_independent (for well-formed snapshots the WHOLE result of Aggregate - buckets in order with merged signatures and id lists - is the same for any two permutation oracles, i.e. for every outcome of Go\'s randomised map iteration), '
+         'C06_step/agg_loop_oracle_independent, C06_nonwf_refuted (hand-built ill-formed snapshots CAN depend on the oracle), C06_render_snapshot_functional, C06_pipeline_functional (conditional on scanner output being well-formed: stated as a premise, not proved), '
+         'with C18_update_deterministic / C18_get_files_canonical for path guessing; everything else is a Gallina function (no hidden state). Repeated-run correspondence: aggregate 8x, guess 7x, pp 3 processes, ToHTML 4x. '
+         'Partial: absence of hidden package-level state in the Go code is only exercised (repeated runs in one process), not proved', 'section 6 C06',
+         'Coq oracle-independence proof + repeated-execution differential check'),
+ 'C19': ('proof', 'Spec/Abi.v (word encoding per parameter kind) + C19_truthful (decode o encode = show for every parameter list over the supported kinds and all in-range values), C19_truthful_ptr_receiver, C19_signed_of_zext, C19_total (never panics, fuel suffices; the one Panic corner extra=true with no parameter is unreachable), '
+         'C19_arity_mismatch_harmless, C19_extra_words_rendered_raw; correspondence on synthetic tracebacks over generated source trees (incl. two packages sharing function names, closing-brace lines, missing / unparsable / shifted sources) and on REAL tracebacks of generated programs compiled with the installed toolchain. '
+         'Partial: go/parser and ast.Inspect are abstracted to the list of parameter type names; the toolchain encoding is validated by the compiled programs, not proved', 'section 6 C19',
+         'Coq decode-encode proof against an ABI specification + compiled-program differential check'),
+ 'C20': ('proof', 'C20_handler_table (exact decision table of SnapshotHandler as iffs), C20_2xx_only_if_valid, C20_invalid_is_4xx, C20_valid_get_ok, C20_atoi_* (strconv.Atoi), C20_capture (the grow-and-retry loop terminates for every int, never exceeds max(maxmem, 1 MiB), captures the dump whole iff it fits); '
+         'the parse half is C01_fidelity applied to the printer model; correspondence: status class under httptest over parameter combinations, big-process capture cases, live runtime.Stack dumps under churn (header count, known goroutines). '
+         'Partial: scheduler states, handler concurrency and runtime.Stack stopping the world are exercised (race-detector driver with concurrent requests), not modelled', 'section 6 C20',
+         'Coq decision-table proof + live-process differential checks'),
 }
 
 def main():
